@@ -349,6 +349,23 @@ theorem mint_effect (g : Cfg) (M : Addr) (c c' : VSt) (d : Addr) (amount der : I
         cases h
         exact ⟨by omega, shares, c1, r, hs, ht, rfl, rfl, rfl, rfl, rfl, rfl, rfl⟩
 
+
+theorem validate_tokens_ne (c : VSt) (d : Addr) (amt : Int) (sh : Dec) (h : validateUnbondAmount c d amt = some sh) :
+    ∃ v, c.val = some v ∧ v.tokens ≠ 0 := by
+  unfold validateUnbondAmount at h
+  split at h
+  · cases h
+  · rename_i v hv
+    split at h
+    · cases h
+    · split at h
+      · cases h
+      · rename_i shares hs
+        unfold Val.sharesFromTokens at hs
+        split at hs
+        · cases hs
+        · rename_i ht; exact ⟨v, hv, ht⟩
+
 theorem burn_effect (g : Cfg) (M : Addr) (c c' : VSt) (d : Addr) (amount : Int) (r : Dec)
     (h : burn g M c d amount = .ok (c', r)) :
     0 ≤ amount ∧ amount ≤ c.bal d ∧
